@@ -196,11 +196,172 @@ func init() {
 		for i := 0; i < n; i++ {
 			c11Case(o, root, rec, rng.Fork())
 		}
+		c11Mutators(o) // (while ggql.Sort is on: the printed form of an object literal is compared)
 		ggql.Sort = false
 		// whole requests parsed once and resolved several times over changing data and variables
 		for i := 0; i < n/12; i++ {
 			r := rng.Fork()
 			walkReuseCase(o, r, docOpts{collisions: false, abstract: r.Chance(35), maxDepth: 3}, 3)
 		}
+	}
+}
+
+// ---- resolvers that keep or change what they are handed ------------------------------------------------
+//
+// A resolver may store the argument it receives, or modify it: the value is its own.  A parsed request that
+// is resolved again must hand out a value built from the literal anew, so every resolve of a reused request
+// answers like a freshly parsed one.  (Deterministic table, every run: a cache of converted arguments on the
+// request's syntax tree shows here and nowhere on a first resolve.)
+
+type c11In struct {
+	Name  string
+	Likes int32
+}
+
+type c11MQ struct {
+	kept []*c11In
+}
+
+func (q *c11MQ) Add(in *c11In) int32 {
+	if in == nil {
+		return -1
+	}
+	in.Likes++
+	q.kept = append(q.kept, in)
+	return in.Likes
+}
+
+func (q *c11MQ) AddMap(in map[string]interface{}) int32 {
+	n, _ := in["likes"].(int32)
+	in["likes"] = n + 1
+	in["seen"] = true
+	return n + 1
+}
+
+func (q *c11MQ) AddList(l []interface{}) int32 {
+	if 0 < len(l) {
+		if n, ok := l[0].(int32); ok {
+			l[0] = n + 1
+			return n + 1
+		}
+	}
+	return 0
+}
+
+type c11MSchema struct {
+	Query *c11MQ
+}
+
+const c11MSDL = `
+type Query { add(in: SongIn): Int addMap(in: MapIn): Int addList(l: [Int]): Int }
+input SongIn { name: String likes: Int = 1 }
+input MapIn { name: String likes: Int = 1 seen: Boolean }
+`
+
+var c11MDocs = []string{
+	`{ add(in: {name: "a"}) }`,
+	`{ add(in: {name: "a", likes: 5}) }`,
+	`{ addMap(in: {name: "a", likes: 5}) }`,
+	`{ addMap(in: {name: "a"}) }`,
+	`{ addList(l: [1, 2]) }`,
+	`{ a: addMap(in: {likes: 1}) b: addList(l: [7]) c: add(in: {likes: 7}) }`,
+	`query A { add(in: {name: "a"}) } query B { addList(l: [3]) }`,
+	`query($n: String){ add(in: {name: $n, likes: 2}) addList(l: [4]) }`,
+}
+
+// the same resolvers behind the Resolver interface (arguments arrive in a map)
+type c11MNode struct {
+	q *c11MQ
+}
+
+func (n *c11MNode) Resolve(f *ggql.Field, args map[string]interface{}) (interface{}, error) {
+	switch f.Name {
+	case "query":
+		return n, nil
+	case "add":
+		in, _ := args["in"].(*c11In)
+		return n.q.Add(in), nil
+	case "addMap":
+		in, _ := args["in"].(map[string]interface{})
+		if in == nil {
+			return -1, nil
+		}
+		return n.q.AddMap(in), nil
+	case "addList":
+		l, _ := args["l"].([]interface{})
+		return n.q.AddList(l), nil
+	}
+	return nil, nil
+}
+
+func c11MRoot(strategy string) *ggql.Root {
+	var root *ggql.Root
+	if strategy == "iface" {
+		root = ggql.NewRoot(&c11MNode{q: &c11MQ{}})
+	} else {
+		root = ggql.NewRoot(&c11MSchema{Query: &c11MQ{}})
+	}
+	if err := root.ParseString(c11MSDL); err != nil {
+		panic(err)
+	}
+	if err := root.RegisterType(&c11In{}, "SongIn"); err != nil {
+		panic(err)
+	}
+	return root
+}
+
+func c11Mutators(o *Out) {
+	for _, strategy := range []string{"reflect", "iface"} {
+		c11MutatorsOn(o, strategy)
+	}
+}
+
+func c11MutatorsOn(o *Out, strategy string) {
+	for _, doc := range c11MDocs {
+		op := ""
+		if strings.Contains(doc, "query A") {
+			op = "A"
+		}
+		root := c11MRoot(strategy)
+		exe, err := root.ParseExecutableString(doc)
+		if err != nil {
+			panic("c11 mutator doc: " + err.Error())
+		}
+		before := exe.String()
+		var same []T
+		var detail []string
+		for i := 0; i < 4; i++ {
+			var vars map[string]interface{}
+			if strings.Contains(doc, "$n") {
+				vars = map[string]interface{}{"n": fmt.Sprint("v", i)}
+			}
+			fresh := canon(safeResolve(c11MRoot(strategy), doc, op, vars))
+			var res map[string]interface{}
+			func() {
+				defer func() {
+					if r := recover(); r != nil {
+						res = map[string]interface{}{"panic": fmt.Sprint(r)}
+					}
+				}()
+				r, e := root.ResolveExecutable(exe, op, vars)
+				res = r
+				if res == nil {
+					res = map[string]interface{}{"data": nil}
+				}
+				if e != nil {
+					res["errors"] = ggql.FormErrorsResult(e)
+				}
+			}()
+			reused := canon(res)
+			same = append(same, B(reused == fresh))
+			detail = append(detail, fmt.Sprintf("resolve %d: reused %s fresh %s", i+1, reused, fresh))
+		}
+		o.Count("mutating-resolver documents")
+		o.Emit(Case{
+			Term: N("c11m", S(strategy+" "+doc)),
+			Obs:  N("obs", LS(same), B(exe.String() == before)),
+			Meta: map[string]interface{}{"doc": doc, "strategy": strategy, "resolves": detail},
+			Nontrivial: true,
+		})
 	}
 }
